@@ -610,8 +610,9 @@ Ltac sat_arith := sat_consts; lia.
 (** normalise the program under the judgement so that its head is a constructor, a [bind] of
     a call, or a case distinction *)
 Ltac sat_norm :=
-  unfold rd_u8, rd_u16, rd_u24, rd_u32, rd_u48, rd_u64, rd_i8, rd_i16, rd_i32;
-  cbn [bind get_pos seek_to seek_rel skip_bytes_to alloc step].
+  unfold rd_u8, rd_u16, rd_u24, rd_u32, rd_u48, rd_u64, rd_i8, rd_i16, rd_i32,
+         get_pos, skip_bytes_to, seek_to, seek_rel, alloc, step;
+  cbn [bind].
 
 Ltac find_bytes_ok :=
   match goal with H : bytes_ok _ = true |- _ => exact H end.
@@ -782,3 +783,8 @@ Proof.
   destruct (Inv_inv s Hi) as (_ & _ & _ & E & _). rewrite E in H2.
   repeat split; auto; apply Hi.
 Qed.
+
+(** when nothing about the intermediate position matters (avoids a case split on [c]) *)
+Lemma sat_bind_any {A B} d p (c : prog A) (k : A -> prog B) Q :
+  sat d p c (fun _ _ => True) -> (forall a p', sat d p' (k a) Q) -> sat d p (bind c k) Q.
+Proof. intros Hc Hk. eapply sat_bind; [exact Hc|]. intros a p' _. apply Hk. Qed.
